@@ -33,22 +33,31 @@ package container
 //@ ghost func cborHas(c string, k cid.Cid) bool
 //@ ghost func carErr(c string) error
 //@ ghost func carHas(c string, k cid.Cid) bool
+//@ // the naming of the outcome as a function of the content is assumed (determinism of the decoder); the body is
+//@ // verified: all-or-nothing, and every entry of the token list went through addToken (verified, under its true CID)
 //@ func FromCborReader
-//@   trusted
-//@   requires r != nil
-//@   ensures result1 == cborErr(content(r))
-//@   ensures result1 == nil ==> result0 != nil && (forall k cid.Cid :: has(result0, k) == cborHas(content(r), k))
+//@   requires r != nil && modelsWF()
+//@   use node_sizes, node_map_children, node_list_children
+//@   assumes result1 == cborErr(content(r))
+//@   assumes result1 == nil ==> (forall k cid.Cid :: has(result0, k) == cborHas(content(r), k))
+//@   ensures [C17] allornothing: result1 != nil ==> result0 == nil
+//@   ensures [C17] nonnil: result1 == nil ==> result0 != nil
+//@   loop 0: invariant it2 != nil && litNode(it2) == tokensNode && 0 <= litPos(it2) && ctn != nil && fresh(ctn) && nodeKind(tokensNode) == datamodel.Kind_List
+//@           invariant forall i int :: {listElem(tokensNode, i)} 0 <= i && i < litPos(it2) && i < listLen(tokensNode) ==> has(ctn, ucanCid(nodeBytes(listElem(tokensNode, i))))
+//@           decreases listLen(tokensNode) - litPos(it2)
 //@ func FromCarReader
 //@   trusted
 //@   requires r != nil
 //@   ensures result1 == carErr(content(r))
 //@   ensures result1 == nil ==> result0 != nil && (forall k cid.Cid :: has(result0, k) == carHas(content(r), k))
 //@ func FromCbor
+//@   requires modelsWF()
 //@   ensures [C17,C18] same: result1 == cborErr(bytes(data)) && (result1 == nil ==> (forall k cid.Cid :: has(result0, k) == cborHas(bytes(data), k)))
 //@ func FromCborBase64Reader
-//@   requires r != nil
+//@   requires r != nil && modelsWF()
 //@   ensures [C17,C18] same: result1 == cborErr(b64dec(content(r))) && (result1 == nil ==> (forall k cid.Cid :: has(result0, k) == cborHas(b64dec(content(r)), k)))
 //@ func FromCborBase64
+//@   requires modelsWF()
 //@   ensures [C17,C18] same: result1 == cborErr(b64dec(bytes(data))) && (result1 == nil ==> (forall k cid.Cid :: has(result0, k) == cborHas(b64dec(bytes(data)), k)))
 //@ func FromCar
 //@   ensures [C17,C18] same: result1 == carErr(bytes(data)) && (result1 == nil ==> (forall k cid.Cid :: has(result0, k) == carHas(bytes(data), k)))
@@ -81,3 +90,20 @@ package container
 //@   requires w != nil
 //@   ensures [C18] flushed: result == nil ==> isClosed(encoderFor(w)) && closedWith(encoderFor(w)) == nil
 //@   assigns anything
+//@
+//@ // ---- CAR framing (C09: the section size is capped before allocating; C17: block integrity) ---------------
+//@ func ldRead
+//@   requires r != nil
+//@   ensures [C09] capped: result1 == nil ==> 1 <= len(result0) && len(result0) <= 33554432
+//@   ensures [C18] eof: result1 == nil ==> result0 != nil
+//@ func ldWrite
+//@   requires w != nil
+//@   ensures [C18] fault: result == nil ==> wfailed(w) == old(wfailed(w))
+//@   assigns written(w), wfailed(w)
+//@   loop 0: invariant 0 <= k && k <= len(d) && 0 <= sum && sum <= k * 4611686018427387904
+//@           decreases len(d) - k
+//@   loop 1: invariant 0 <= k && k <= len(d) && wfailed(w) == old(wfailed(w))
+//@           decreases len(d) - k
+//@ func readBlock
+//@   requires r != nil
+//@   ensures [C17] integrity: result1 == nil ==> (exists p cid.Prefix :: result0.c == cidOfData(p, bytes(result0.data)))
